@@ -15,10 +15,9 @@ Import ListNotations.
 
 
 Local Open Scope string_scope.
-Definition reference_other_rules : list string :=      (* sorted, as the generator writes them *)
-  ["""/*"""; """//""[^\n]*"; """\\""[\t ]*""\n"""; "(\r\n)+"; "."; "<<EOF>>"; "[ \t]+"; "\""[^\""]+\"""; "\n+"; "{alpha}{idchr}*"; "{num}";
-   "{num}("".""{num})?([eE](""+""|""-"")?{num})?"].
-Definition reference_defs : list (string * string) := [("alpha", "[a-zA-Z_]"); ("idchr", "[a-zA-Z0-9_$#]"); ("num", "[0-9]+")].
+Definition reference_other_rules : list string :=      (* sorted, as the generator writes them; the name definitions of lexer.l (alpha, idchr, num) are expanded *)
+  ["""/*"""; """//""[^\n]*"; """\\""[\t ]*""\n"""; "(\r\n)+"; "."; "<<EOF>>"; "[ \t]+"; "[0-9]+"; "[0-9]+("".""[0-9]+)?([eE](""+""|""-"")?[0-9]+)?"; "[a-zA-Z_][a-zA-Z0-9_$#]*"; "\""[^\""]+\"""; "\n+"].
+Definition reference_defs : list (string * string) := [].      (* definitions are expanded by the reader: their names and nesting are immaterial *)
 Local Close Scope string_scope.
 
 Inductive kind := KLit (tok : string) | KIdent | KNum | KFloat | KString | KError | KLf | KCrLf.      (* KLf / KCrLf: the two line-end rules *)
